@@ -123,7 +123,7 @@ def generate(repo, lean_dir):
     rows = measure()
     import glob
     srcs = glob.glob(os.path.join(repo, 'ncclient', 'devices', '*.py')) + [os.path.join(repo, 'ncclient', f) for f in ('manager.py', 'xml_.py')]
-    out = ['-- GENERATED by harness/gen/isolation.py from /repo (source hash %s). Do not edit.' % src_hash(srcs),
+    out = ['-- GENERATED by harness/gen/isolation.py from /repo on every run. Do not edit.',
            'import NcVerif.Model.Basic', 'namespace NcVerif.Gen', 'open NcVerif', '',
            'structure IsoOp where', '  label : Str', '  sharedWrites : List Str   -- module-/class-level containers whose content differs after the call',
            '  failed : Bool', '', 'def isoOps : List IsoOp := [']
